@@ -403,12 +403,21 @@ class ProbeMarketMixin:
             pre = current_row(self, self._intern)
         except Exception:  # noqa: BLE001 - a getter raised: the snapshot after the step reports it
             pre = 0
+        dok = True
+        if isinstance(self, IndexMarket) and not first:
+            # the components have already moved to the next step, the index has not: asked without a time, the index answers for
+            # ITS OWN clock (the same values as when asked for that time explicitly)
+            try:
+                dok = bool(self.get_market_index() == self.get_market_index(self.get_time())
+                           and self.compute_fundamental_index() == self.compute_fundamental_index(self.get_time()))
+            except Exception:  # noqa: BLE001
+                dok = False
         super()._update_time(next_fundamental_price)
         after = {o.order_id for o in self.buy_order_book.priority_queue + self.sell_order_book.priority_queue}
         gone = sorted([i, v] for i, v in before.items() if i not in after)
         u = self._u()
         fu = _soft(u.u, next_fundamental_price) if REC.exact else 0
-        REC.emit("tick", m=self.market_id, t=int(self.time), exp=gone, fund=max(fu, 0), idx=isinstance(self, IndexMarket))
+        REC.emit("tick", m=self.market_id, t=int(self.time), exp=gone, fund=max(fu, 0), idx=isinstance(self, IndexMarket), dok=dok)
         if first:
             p0 = _soft(u.u, self.get_market_price())
             REC.book_hdr[self.market_id] = {"den": DEN, "p0": max(p0, 0), "fund0": max(fu, 0), "exact": bool(u.exact),
